@@ -627,6 +627,17 @@ func (fr *Frame) execBlock(st *State, n node) []*State {
 			for _, rv := range x.Results {
 				res = append(res, fr.val(st, rv))
 			}
+			if fr.top && fr.spec != nil && len(fr.spec.Sites) > 0 {
+				// at return assert ...: a postcondition that may mention the function's local variables (checked at every
+				// return instruction, after the deferred calls)
+				extra := map[string]Val{}
+				if len(res) == 1 {
+					bindResults(extra, fr.fn.Signature, res[0])
+				} else if len(res) > 1 {
+					bindResults(extra, fr.fn.Signature, Tuple(res))
+				}
+				fr.siteGeneric(st, "return", "", extra)
+			}
 			fr.returns = append(fr.returns, retInfo{st, res})
 			return outs
 		case *ssa.Panic:
@@ -799,6 +810,8 @@ func (fr *Frame) execInstr(st *State, in ssa.Instruction) {
 		if fr.top && fr.spec.Safety {
 			r.oblige(st, "index-in-range", fr.siteLabel(in), "index within bounds", and(app("<=", "0", i), app("<", i, length)))
 		}
+		// an out-of-range index panics here: execution continues only with the index in range
+		r.assume(st, and(app("<=", "0", i), app("<", i, length)))
 		idx = r.define("idx", SInt, idx)
 		if isAggregate(et) {
 			fr.bind(st, x, TV{app("elemref", arr, idx), SInt, x.Type()})
@@ -1252,6 +1265,30 @@ func (r *Run) binop(st *State, op token.Token, a, b TV, opndT, resT types.Type, 
 							hi, lo = b.S, a.S
 						}
 						if k < w {
+							uf := r.rangeUF(st, "bor", a.S, b.S, resT)
+							return res(ite(and(app("<=", "0", lo), app("<", lo, pow2(k).String())), app("+", hi, lo), uf))
+						}
+					}
+				}
+			}
+		}
+		if op == token.OR && site != nil && isInt && !signed {
+			// (x & C) | y with 0 <= y < 2^k, k the lowest set bit of the constant C, is an addition (disjoint bits)
+			for _, pair := range [][2]ssa.Value{{site.X, site.Y}, {site.Y, site.X}} {
+				if an, ok := pair[0].(*ssa.BinOp); ok && an.Op == token.AND {
+					var kc *big.Int
+					if c, ok := constOf(an.X); ok {
+						kc = c
+					} else if c, ok := constOf(an.Y); ok {
+						kc = c
+					}
+					if kc != nil && kc.Sign() > 0 {
+						k := kc.TrailingZeroBits()
+						hi, lo := a.S, b.S
+						if pair[0] == site.Y {
+							hi, lo = b.S, a.S
+						}
+						if k > 0 && k < w {
 							uf := r.rangeUF(st, "bor", a.S, b.S, resT)
 							return res(ite(and(app("<=", "0", lo), app("<", lo, pow2(k).String())), app("+", hi, lo), uf))
 						}
